@@ -159,7 +159,7 @@ class Search:
     def explore(self, scen, policies=("FIFO",), bound=1, cap=None):
         self.explore_block([scen], policies, bound, cap)
 
-    def explore_block(self, scens, policies=("FIFO",), bound=1, cap=None):
+    def explore_block(self, scens, policies=("FIFO",), bound=1, cap=None, window=None):
         """Level-by-level exploration of several scenarios at once (one pool wave per deviation level)."""
         # frontier: (scenario index, policy) -> list of (schedule, expected widths prefix)
         fr = {(si, pol): [({}, None)] for si in range(len(scens)) for pol in policies}
@@ -206,7 +206,10 @@ class Search:
                     sch = it["schedule"]
                     start = (max(map(int, sch)) + 1) if sch else 0
                     w = o["widths"]
-                    for i in range(start, len(w)):
+                    # `window`: a further deviation is only placed within that many scheduling steps after the previous one
+                    # (a smaller, still completely enumerated space: "<= bound deviations, consecutive ones <= window apart")
+                    stop = len(w) if (window is None or not sch) else min(len(w), start + window)
+                    for i in range(start, stop):
                         for alt in range(1, w[i]):
                             s2 = dict(sch)
                             s2[i] = alt
@@ -216,7 +219,7 @@ class Search:
                     done[k] = d
                 fr[k] = nxt[k]
         for k in fr:
-            self.completed.setdefault(scens[k[0]]["name"], {})[k[1]] = done[k]
+            self.completed.setdefault(scens[k[0]]["name"], {})[k[1] + (f"/window{window}" if window else "")] = done[k]
 
     def explore_kills(self, scen, policy="FIFO", base_schedules=({},), restart_bound=0):
         """Kill the first scheduler process before every scheduling step of each base schedule, then run the restart
